@@ -6,6 +6,7 @@ mod c06;
 mod c07;
 mod c09;
 mod c08;
+mod c14;
 mod animgen;
 mod webpfile;
 mod oracle;
@@ -71,6 +72,7 @@ fn main() {
         "C07" => c07::run(&o),
         "C09" => c09::run(&o),
         "C08" => c08::run(&o),
+        "C14" => c14::run(&o),
         _ => {
             eprintln!("unknown property {prop}");
             std::process::exit(2);
